@@ -593,6 +593,52 @@ class Models:
                 return native(lambda: a % b)
             vals = list(b) if isinstance(b, tuple) else [b]
             fc = chars(a)
+            if all(isinstance(c, str) for c in fc) and re.search(r"%[-0-9*]", "".join(fc)):
+                # concrete format with '-' flag / width ('%-*s', '%5s', '%-12s', '%3d'): padding with blanks; the lengths of
+                # the rendered operands are concrete (their characters may be symbolic)
+                fmt = "".join(fc)
+                out, i, k = [], 0, 0
+                for mm in re.finditer(r"%(-?)(\*|[1-9][0-9]*)?([srdi%])", fmt):
+                    if "%" in fmt[i:mm.start()]:
+                        raise Unsupported("% conversion with flags beyond '-' and a width")
+                    out.extend(fmt[i:mm.start()])
+                    i = mm.end()
+                    left, width, conv = mm.group(1) == "-", mm.group(2), mm.group(3)
+                    if conv == "%":
+                        if left or width:
+                            raise Unsupported("'%%' with flags")
+                        out.append("%")
+                        continue
+                    if width == "*":
+                        if k >= len(vals):
+                            pyraise(TypeError, "not enough arguments for format string")
+                        wv = vals[k]
+                        k += 1
+                        if not isinstance(wv, (int, SInt)) or isinstance(wv, bool):
+                            pyraise(TypeError, "* wants int")
+                        wv = self.I.concretize_int(W, wv)
+                        if wv < 0:
+                            left, wv = True, -wv
+                    else:
+                        wv = int(width or 0)
+                    if k >= len(vals):
+                        pyraise(TypeError, "not enough arguments for format string")
+                    v = vals[k]
+                    k += 1
+                    if conv in "di" and (not isinstance(v, (int, SInt)) or isinstance(v, bool)):
+                        raise Unsupported("%d of a non-int operand")
+                    r = self.py_repr(W, v) if conv == "r" else self.py_str(W, v)
+                    if isinstance(r, Redirect):
+                        raise Unsupported("% formatting of an object with __str__")
+                    rc = list(chars(r))
+                    pad = [" "] * max(0, wv - len(rc))
+                    out.extend(rc + pad if left else pad + rc)
+                if "%" in fmt[i:]:
+                    raise Unsupported("% conversion with flags beyond '-' and a width")
+                out.extend(fmt[i:])
+                if k != len(vals):
+                    pyraise(TypeError, "not all arguments converted during string formatting")
+                return mk(out)
             T = lambda c, ch: (c == ch) if isinstance(c, str) else self.I.truth(W, ch_eq(c, ch))
             out, i, k = [], 0, 0
             while i < len(fc):
@@ -1200,8 +1246,13 @@ class Models:
                 # pos does not slice the string: '^' and look-behind still see what stands before it
                 it.pos = min(max(int(pos), 0), len(chars(args[0])))
                 return it
-            if (len(args) > 1 or kwargs) and name in ("match", "search", "fullmatch", "findall"):
-                raise Unsupported(f"re.Pattern.{name} with pos / endpos")
+            pos = 0
+            if name in ("match", "search", "fullmatch", "findall") and (len(args) > 1 or kwargs):
+                if name == "findall" or len(args) > 2 or "endpos" in kwargs:
+                    raise Unsupported(f"re.Pattern.{name} with pos / endpos")
+                pos = args[1] if len(args) > 1 else kwargs.get("pos", 0)
+                if not isinstance(pos, int):
+                    pos = self.I.concretize_int(W, pos)
             if name == "split":
                 return regex_split(self.I, W, obj, args[0], int(args[1] if len(args) > 1 else kwargs.get("maxsplit", 0)))
             if name == "findall":
@@ -1210,7 +1261,7 @@ class Models:
                 return regex_sub(self.I, W, obj, args[0], args[1], int(args[2] if len(args) > 2 else kwargs.get("count", 0)), 0, name == "subn")
             if name not in ("match", "search", "fullmatch"):
                 raise Unsupported(f"re.Pattern.{name}")
-            return regex_once(self.I, W, name, obj.pattern, args[0], int(flags))
+            return regex_once(self.I, W, name, obj.pattern, args[0], int(flags), int(pos))
         if nb.via is not None:
             # super().__init__ etc. resolved on a builtin base
             target = getattr(super(nb.via, obj), name)
